@@ -415,7 +415,11 @@ def run_property(P, tier, seed, replay=None):
                     case = P.shrink(case, lambda cc: P.oracle(cc) is not None)
                 except Exception:
                     pass
-            rp.update({'case': case, 'oracle': f0['failure'], 'how': 'the property oracle fails on the implementation '
+            try:
+                f1 = P.oracle(case)
+            except Exception:
+                f1 = None
+            rp.update({'case': case, 'oracle': f1 or f0['failure'], 'how': 'the property oracle fails on the implementation '
                        'for this input; re-run with ./check %s --replay <this file>' % pid})
         else:
             rp.update({'case': None, 'how': 'no failing input found; the items under "broken" no longer check',
